@@ -51,11 +51,20 @@ def extract_dbd_table(routines):
         ent = {'name': b['name'], 'levels': []}
         legal = None
         lev_rules, spin_rules, ek_rules = [], [], []
+        in4 = False
         for l in b['lines']:
             ll = l.lower()
+            if ll == 'if(modebb.eq.20)then':
+                in4 = True       # quadruple beta: other Q value and daughter, level forced to 0 by the reference
+                continue
+            if in4 and ll == 'endif':
+                in4 = False
+                continue
             m = re.match(r'^(qbb|zdbb|adbb|ek)=([-+0-9.e]+)$', ll)
             if m:
-                ent[{'qbb': 'Q', 'zdbb': 'Z', 'adbb': 'A', 'ek': 'EK'}[m.group(1)]] = str(Decimal(m.group(2)))
+                ent[{'qbb': 'Q', 'zdbb': 'Z', 'adbb': 'A', 'ek': 'EK'}[m.group(1)] + ('4' if in4 else '')] = str(Decimal(m.group(2)))
+                continue
+            if in4:
                 continue
             m = re.match(r'^if\((ilevel.*)\)then$', ll)
             if m and legal is None:
@@ -238,7 +247,9 @@ def main():
     repo = sys.argv[1]
     outdir = sys.argv[2]
     src = os.path.join(repo, 'resources/code/decay0/decay0_2020-04-20.for')
-    h = hashlib.md5(open(src, 'rb').read() + open(__file__, 'rb').read()
+    h = hashlib.md5(open(src, 'rb').read() + open(__file__, 'rb').read() + open(os.path.join(repo, 'README.rst'), 'rb').read()
+                    + open(os.path.join(repo, 'resources/description/dbd_modes.lis'), 'rb').read()
+                    + open(os.path.join(repo, 'resources/description/dbd_isotopes.lis'), 'rb').read()
                     + open(os.path.join(os.path.dirname(__file__), 'f2ts.py'), 'rb').read()).hexdigest()
     os.makedirs(outdir, exist_ok=True)
     gdir = outdir   # TLC finds the generated modules through -DTLA-Library=<outdir>
@@ -300,17 +311,35 @@ def main():
     with open(need[3], 'w') as f:
         f.write('------------------------------ MODULE DbdTable ------------------------------\n')
         f.write('(* GENERATED by tools/gen_spec_data.py from GENBBsub in the Decay0 2020-04-20 reference text - do not edit. *)\n')
+        f.write('(* q4, z4: Q value and daughter charge of the quadruple-beta mode (0 when the text has none). *)\n')
         f.write('(* Energies in keV; Q, EK in keV (3 decimals in the text); spin flag 0 = 0+, 2 = 2+, -1 = not assigned by the text. *)\n')
         f.write('EXTENDS Integers, Sequences, TLC\n\n')
         f.write('DbdIso ==\n  ')
         ents = []
         for ent in table:
             lv = ', '.join('[e |-> %d, spin |-> %d, ek |-> %d]' % (l['E'], l['spin'], int(Decimal(l['EK']) * 1000)) for l in ent['levels'])
-            ents.append('%s :> [q |-> %d, z |-> %d, a |-> %d, ek |-> %d, low |-> %s, levels |-> <<%s>>]' % (
+            ents.append('%s :> [q |-> %d, z |-> %d, a |-> %d, ek |-> %d, q4 |-> %d, z4 |-> %d, low |-> %s, levels |-> <<%s>>]' % (
                 tla_str(ent['name']), int(Decimal(ent['Q']) * 1000), int(Decimal(ent['Z'])), int(Decimal(ent['A'])),
-                int(Decimal(ent['EK']) * 1000), tla_str(low.get(ent['name'], '')), lv))
+                int(Decimal(ent['EK']) * 1000), int(Decimal(ent.get('Q4', '0')) * 1000), int(Decimal(ent.get('Z4', '0'))),
+                tla_str(low.get(ent['name'], '')), lv))
         f.write('\n  @@ '.join(ents))
         f.write('\n\nDbdNames == DOMAIN DbdIso\n')
+        # the published mode tables (resources/description/dbd_modes.lis and README Appendix 1)
+        sys.path.insert(0, os.path.join(ROOT, 'lib'))
+        os.environ.setdefault('VERIF_REPO', repo)
+        import catalogue
+        lm = catalogue.lis_modes()
+        rm = catalogue.readme_modes()
+        f.write('\nLisModes == {%s}\n' % ', '.join('[id |-> %d, label |-> %s, legacy |-> %d]' % (i, tla_str(l), g) for (i, l, g, d) in lm))
+        f.write('ReadmeModes == {%s}\n' % ', '.join('[id |-> %d, label |-> %s, legacy |-> %d]' % (i, tla_str(l), -1 if g is None else g) for (i, l, g) in rm))
+        f.write('ReadmeDbdNames == {%s}\n' % ', '.join(tla_str(x) for x in catalogue.readme_dbd()))
+        f.write('LisDbdNames == {%s}\n' % ', '.join(tla_str(x) for x in catalogue.lis_dbd()))
+        rl = catalogue.readme_levels()
+        ents = []
+        for iso, levs in sorted(rl.items()):
+            ents.append('%s :> <<%s>>' % (tla_str(iso), ', '.join('[e |-> %d, spin |-> %d]' % (
+                round(float(e) * 1000), {'0+': 0, '2+': 2}.get(sp, -1)) for (i, sp, e) in levs)))
+        f.write('ReadmeLevels ==\n  ' + '\n  @@ '.join(ents) + '\n')
         f.write('=============================================================================\n')
     open(stamp, 'w').write(h)
     if os.path.abspath(repo) == '/repo':
